@@ -21,6 +21,7 @@ whose signature is the raise site (`ExcType@module.function[->callee]`, plus
 `<-module.parser` when the raise site is a shared helper).
 """
 import struct
+import threading
 import time
 
 import paramiko
@@ -46,7 +47,11 @@ META = dict(
          "ciphertext bit flips per cipher family, framing and compression garbage under encryption, re-key "
          "messages, auth-protocol messages arriving after a completed authentication attempt (failed by each "
          "method, partial, successful, query outstanding; both roles), and duplicate/late confirmations of the "
-         "connection protocol each followed by a victim-side wait=True round trip. Zero-length mpints and cuts at "
+         "connection protocol each followed by a victim-side wait=True round trip, and every public client auth "
+         "entry point (Transport / ServiceRequestingTransport auth_password incl. its keyboard-interactive fallback, "
+         "auth_interactive, auth_interactive_dumb, SSHClient.connect(password=)) against scripted multi-step servers "
+         "(failure lists, INFO_REQUEST with 0..3 prompts, repeated / truncated ones, banners, SUCCESS/FAILURE). "
+         "Zero-length mpints and cuts at "
          "every field boundary of kex/signature messages are named strata with their own minimum counts. "
          "Holds for the sessions produced, not for all byte strings.",
     note="Trusts vf.net.Link, the attacker Transport (only as a key-holding sender) and the classification of "
@@ -743,6 +748,36 @@ class Sess:
         self.ok = True
         return True
 
+    def start_scripted(self, client_start=True):
+        """Client victim against a *scripted* server: the attacker's tables are replaced before the
+        handshake (kex traffic keeps its real handlers), so every SERVICE_REQUEST / USERAUTH_REQUEST /
+        INFO_RESPONSE of the victim lands in the inbox and is answered by the script only."""
+        a = self.a
+        a.takeover()
+        self._sev = threading.Event()
+        self.att.start_server(event=self._sev, server=a.aserver)
+        if client_start:
+            _, e = excsan.api(self.v.start_client, timeout=60)
+            if e is not None:
+                self.api_excs.append(("start_client", e))
+                return False
+            self._sev.wait(60)
+        self.ok = True
+        return True
+
+    def next_from_victim(self, pos, timeout, until=None):
+        """Pacing only: the next message of the victim at inbox index >= pos -> (index, entry) or None."""
+        end = time.monotonic() + timeout
+        a = self.a
+        with a.inbox_cv:
+            while True:
+                if len(a.inbox) > pos:
+                    return pos, a.inbox[pos]
+                left = end - time.monotonic()
+                if left <= 0 or (until is not None and until.is_set()) or not self.v.is_alive():
+                    return None
+                a.inbox_cv.wait(min(left, 0.05))
+
     def env(self):
         if self._env is None:
             e = pk_env(self.att, self.key)
@@ -1250,6 +1285,160 @@ class PostStage:
                 th.done.wait(1.0)
                 sess.finish(self.judge, desc, "auth-api")
 
+    # -- client auth entry points x scripted multi-step servers ---------------
+    def run_auth_scripts(self):
+        """Every public client auth entry point (Transport and ServiceRequestingTransport: auth_password with
+        its keyboard-interactive fallback, auth_interactive, auth_interactive_dumb; SSHClient.connect(password=))
+        against scripted servers: failure lists that do / do not trigger the fallback, INFO_REQUESTs with
+        0..3 prompts (0 = the OpenSSH+PAM follow-up), repeated, truncated or odd ones, banners in between,
+        then SUCCESS / FAILURE.  Judged: what the entry point raises and what get_exception() holds."""
+        ctx, rng = self.ctx, self.rng
+
+        def failure(methods, partial=False):
+            return g.build(51, [g.F("m", "list", methods), g.F("p", "bool", partial)])
+
+        def info_tmpl(k):
+            fs = [g.F("name", "text", "title"), g.F("instructions", "text", "do it"), g.F("lang", "str", ""),
+                  g.F("n", "count", k)]
+            for i in range(k):
+                fs += [g.F("prompt%d" % i, "text", "Password: " if i == 0 else "Code %d: " % i), g.F("echo%d" % i, "bool", i > 0)]
+            return g.T("userauth-info-request", 60, fs)
+
+        banner = g.build(53, [g.F("msg", "text", "hello\n"), g.F("lang", "text", "en")])
+        success = b"\x34"
+        odd_labels = ("cut@0:name", "cut@1:instructions", "cut@3:n", "cut@4:prompt0", "cut@5:echo0", "cut@6:prompt1",
+                      "cut-in-len@4:prompt0", "cut-in-data@4:prompt0", "count=0@3:n", "count=1@3:n", "count=3@3:n",
+                      "count=255@3:n", "empty@4:prompt0", "empty@0:name", "drop@3:n", "drop@5:echo0", "tail", "type-only",
+                      "len=max@4:prompt0", "as-u32@4:prompt0")
+        odd = dict(g.mutants(info_tmpl(2), rng))
+
+        def info(spec):
+            if isinstance(spec, int):
+                return g.payload(info_tmpl(spec))
+            return odd["userauth-info-request/" + spec]
+
+        # (first reply to a *password* request, does it lead to the fallback?)
+        firsts = [
+            ("fail-kbd", [failure(["keyboard-interactive"])]),
+            ("fail-pk-kbd", [failure(["publickey", "keyboard-interactive"])]),
+            ("banner-fail-kbd", [banner, failure(["keyboard-interactive"])]),
+            ("fail-kbd-partial", [failure(["keyboard-interactive"], True)]),
+            ("fail-password", [failure(["password"])]),
+            ("fail-empty-list", [failure([])]),
+            ("fail-kbd-twice-listed", [failure(["keyboard-interactive", "keyboard-interactive"])]),
+        ]
+        seqs = [[0], [1], [2], [3], [1, 0], [0, 0], [0, 1], [1, 1], [2, 0, 0], [1, 0, 1]] + [[o] for o in odd_labels] + \
+               [[1, o] for o in odd_labels[:8]] + [[0, o] for o in ("count=3@3:n", "type-only")]
+        ends = [("success", [success]), ("failure-kbd", [failure(["keyboard-interactive"])]),
+                ("failure-password", [failure(["password"])]), ("banner-success", [banner, success]),
+                ("failure-partial", [failure(["publickey"], True)]), ("eof", [])]
+        handlers = {
+            "exact": lambda t, i, p: ["x"] * len(p),
+            "few": lambda t, i, p: ["x"] * max(0, len(p) - 1),
+            "many": lambda t, i, p: ["x"] * (len(p) + 1),
+            "none": lambda t, i, p: [],
+        }
+        entries = [
+            ("T.auth_password", W, "password", None),
+            ("SRT.auth_password", WSRT, "password", None),
+            ("SSHClient.connect(password)", W, "sshclient", None),
+            ("SSHClient.connect(password,SRT)", WSRT, "sshclient", None),
+            ("T.auth_password(fallback=False)", W, "password-nofallback", None),
+            ("T.auth_interactive", W, "interactive", "exact"),
+            ("T.auth_interactive/few", W, "interactive", "few"),
+            ("T.auth_interactive/many", W, "interactive", "many"),
+            ("T.auth_interactive/none", W, "interactive", "none"),
+            ("T.auth_interactive_dumb", W, "dumb", "exact"),
+            ("SRT.auth_interactive", WSRT, "interactive", "exact"),
+            ("SRT.auth_interactive/few", WSRT, "interactive", "few"),
+            ("SRT.auth_interactive_dumb", WSRT, "dumb", "exact"),
+        ]
+        n = 0
+        for ename, vcls, kind, hname in entries:
+            pw_entry = kind in ("password", "sshclient", "password-nofallback")
+            for fi, (fname, fmsgs) in enumerate(firsts if pw_entry else [("direct", None), ("banner-direct", None)]):
+                for si, seq in enumerate(seqs):
+                    n += 1
+                    end_name, end_msgs = ends[n % len(ends)]
+                    # core: the fallback-triggering first reply x every prompt-count sequence; everything else sampled
+                    core = (fi == 0 and si < 10) or (fi == 0 and (si + n) % 4 == 0)
+                    if not self.mine(core=core, frac=0.05):
+                        continue
+                    desc = ("auth-script", ename, fname, tuple(str(x) for x in seq), end_name)
+                    sess = Sess(ctx, "C", False, False, victim_cls=vcls)
+                    if not sess.start_scripted(client_start=(kind != "sshclient")):
+                        ctx.count("session_setup_failed")
+                        ctx.case(desc, nontrivial=False)
+                        sess.finish(self.judge, desc, "auth-script")
+                        continue
+                    v = sess.v
+                    h = handlers.get(hname or "exact")
+                    if kind == "password":
+                        th = sess.api(ename, v.auth_password, "u", "pw")
+                    elif kind == "password-nofallback":
+                        th = sess.api(ename, v.auth_password, "u", "pw", None, False)
+                    elif kind == "interactive":
+                        th = sess.api(ename, v.auth_interactive, "u", h)
+                    elif kind == "dumb":
+                        th = sess.api(ename, v.auth_interactive_dumb, "u", h)
+                    else:
+                        cl = paramiko.SSHClient()
+                        cl.set_missing_host_key_policy(paramiko.AutoAddPolicy())
+                        th = sess.api(ename, cl.connect, "vf.example", sock=sess.link.a, username="u", password="pw",
+                                      allow_agent=False, look_for_keys=False, timeout=60,
+                                      transport_factory=lambda sock, **kw: v)
+                    ctx.count("authscript.entry." + ename)
+                    ctx.count("authscript.sessions")
+                    ctx.case(desc, sample=dict(stage="auth-script", entry=ename, first_reply=fname, info_requests=seq,
+                                               end=end_name) if (fi == 0 and seq == [1, 0]) else None)
+                    # the script: replies to the 1st USERAUTH_REQUEST, then info requests, then the end
+                    steps = []
+                    if pw_entry:
+                        steps.append(("first:" + fname, fmsgs))
+                    for j, spec in enumerate(seq):
+                        pre = [banner] if (fname.startswith("banner") and j == 0 and not pw_entry) else []
+                        steps.append(("info:%s" % spec, pre + [info(spec)]))
+                    steps.append(("end:" + end_name, end_msgs))
+                    pos = 0
+                    requests = 0
+                    while True:
+                        r = sess.next_from_victim(pos, 4.0, th.done)
+                        if r is None:
+                            break
+                        pos = r[0] + 1
+                        t = r[1]["type"]
+                        if t == 5:
+                            sess.send("service-accept/valid", g.payload(g.t_service("accept")[0]), barrier=False)
+                            continue
+                        if t == 50:
+                            requests += 1
+                            mm = Message(r[1]["payload"])
+                            mm.get_string(), mm.get_string()
+                            method = mm.get_string()
+                            if requests > 1 and method == b"keyboard-interactive" and pw_entry:
+                                ctx.count("authscript.fallback_taken")
+                        elif t == 61:
+                            ctx.count("authscript.info_responses_seen")
+                        else:
+                            continue
+                        if pw_entry and requests > 1 and steps and steps[0][0].startswith("first:"):
+                            steps.pop(0)
+                        if not steps:
+                            sess.send("userauth-failure/final", failure(["publickey"]), barrier=False)
+                            continue
+                        sname, msgs = steps.pop(0)
+                        if sname == "end:eof":
+                            break
+                        for pl in msgs:
+                            ctx.count("inj.auth-script.C.t%d" % pl[0])
+                            if sname.startswith("info:"):
+                                k = sname[5:]
+                                ctx.count("authscript.info_request." + (("k%s" % k) if k.isdigit() else "odd"))
+                            if not sess.send(sname, pl, barrier=False):
+                                break
+                    th.done.wait(2.0)
+                    sess.finish(self.judge, desc, "auth-script")
+
     def run_client_conn(self):
         """Authenticated client victim; connection-protocol APIs in flight."""
         ctx, rng = self.ctx, self.rng
@@ -1597,7 +1786,7 @@ def run(ctx):
     ctx.count("wall_ms.raw", int((time.time() - t_raw) * 1000))
     post = PostStage(ctx, judge, budget)
     for name, share in (("run_bitflips", 0.05), ("run_evil_framing", 0.05), ("run_gss", 0.04), ("run_late_confirm", 0.05),
-                        ("run_lifecycle", 0.10), ("run_passive", 0.25), ("run_client_auth", 0.10),
+                        ("run_lifecycle", 0.10), ("run_auth_scripts", 0.08), ("run_passive", 0.22), ("run_client_auth", 0.08),
                         ("run_client_conn", 0.07), ("run_rekey", 0.08)):
         t0 = time.time()
         budget.start(name, share)
@@ -1634,6 +1823,17 @@ def run(ctx):
                  "S.kexdh-init", "S.kex-gex-init", "S.ecdsa-sig-inner"):
         ctx.require("gen.mpint_zero_length." + name, 2)
         ctx.require("gen.cut_right_before_mpint." + name, 2)
+    # client auth entry point x scripted multi-step server
+    ctx.require("authscript.sessions", 100 if q else 400)
+    ctx.require("authscript.fallback_taken", 15 if q else 40)
+    ctx.require("authscript.info_responses_seen", 60 if q else 250)
+    for k, lo in (("k0", 20), ("k1", 20), ("k2", 5), ("k3", 3), ("odd", 15)):
+        ctx.require("authscript.info_request." + k, lo)
+    for en in ("T.auth_password", "SRT.auth_password", "SSHClient.connect(password)", "SSHClient.connect(password,SRT)",
+               "T.auth_password(fallback=False)", "T.auth_interactive", "T.auth_interactive/few", "T.auth_interactive/many",
+               "T.auth_interactive/none", "T.auth_interactive_dumb", "SRT.auth_interactive", "SRT.auth_interactive/few",
+               "SRT.auth_interactive_dumb"):
+        ctx.require("authscript.entry." + en, 5)
     # duplicate / late confirmations, each followed by a victim-side wait=True round trip
     ctx.require("inj.late-confirm.total", 60 if q else 60)
     ctx.require("late_confirm.roundtrips_ok", 40 if q else 40)
